@@ -20,4 +20,9 @@ ConfOf(f, mx) == [want |-> [p \in Procs |-> OptSeq[f[CHOOSE i \in 1..N : ProcSeq
 AllConfs == {ConfOf(f, mx) : f \in Assign, mx \in [Queues -> 1..MaxMax]}
 \* liveness is claimed for configurations without multi-acquire only (DESIGN C17, S12)
 SingleConfs == {c \in AllConfs : \A p \in Procs : c.mode[p] # "multi"}
+\* a fixed 5-caller configuration over 3 queues with overlapping multi-acquires (thorough tier)
+FiveConfs == {[want |-> [p \in Procs |-> CASE p = "p1" -> <<"q1", "q2">> [] p = "p2" -> <<"q2", "q3", "q1">>
+                                          [] p = "p3" -> <<"q3", "q1">> [] p = "p4" -> <<"q2">> [] OTHER -> <<"q3">>],
+               mode |-> [p \in Procs |-> CASE p \in {"p1", "p2", "p3"} -> "multi" [] p = "p4" -> "acq" [] OTHER -> "try"],
+               max  |-> mx] : mx \in {[q \in Queues |-> 1], [q \in Queues |-> IF q = "q2" THEN 2 ELSE 1]}}
 =============================================================================
